@@ -5,7 +5,7 @@ from common import Report, log
 
 MANIFEST = dict(
     technique='Coq proof over an executable model of toSQLPosition / getLocation / the parser position lookup + complete offset->location table correspondence per input (vm_compute) + model-independent position oracle on tokens, comments, tokenizer errors and single-token corruptions',
-    text='Model/Loc.v mirrors the line table built by Tokenize and the two scans of toSQLPosition (tab counts 4, bytes not runes), getLocation, the position mapping built by the token converter (split compound keywords included) and Parser.currentLocation. Proofs/LocP.v proves for every byte string and every offset: the reported line is 1 + the number of LF before the offset and the column is 1 + the width of the bytes since the line start (loc_exact, with the exact contribution of tabs and UTF-8 continuation bytes), 1-based, strictly increasing in the offset up to the end of input (hence injective), constant past the end, inside the input; for every abstract token stream whose byte spans are ordered the reported spans are 1-based, never decreasing, end of one never after the start of the next (spans_ordered_loc); the parser-side lookup returns the Start of the converted token under the cursor and the sub-spans given to split compound keywords are ordered and lie inside the source token. Tie: on every run the implementation\'s toSQLPosition/getLocation results for EVERY offset 0..len+2 of each generated input and its line table are compared with the model inside Coq; an oracle written only from the property text re-derives every token/comment offset from the token values and the raw text and checks 1-based, ordering, containment, own-first-character, exact columns on ASCII tab-free lines, tokenizer error anchors, and (via the parser cursor) that every syntax error of ParseFromModelTokensWithPositions on single-token corruptions of valid statements is located at the offending token; a source scan checks that no parser error site is built with a literal zero Location.',
+    text='Model/Loc.v mirrors the line table built by Tokenize and the two scans of toSQLPosition (tab counts 4, bytes not runes), getLocation, the position mapping built by the token converter (split compound keywords included) and Parser.currentLocation. Proofs/LocP.v proves for every byte string and every offset: the reported line is 1 + the number of LF before the offset and the column is 1 + the width of the bytes since the line start (loc_exact, with the exact contribution of tabs and UTF-8 continuation bytes), 1-based, strictly increasing in the offset up to the end of input (hence injective), constant past the end, inside the input; for every abstract token stream whose byte spans are ordered the reported spans are 1-based, never decreasing, end of one never after the start of the next (spans_ordered_loc); the resume-point form of toSQLPosition that is in the tree since d9a9811 (Model/Cost.v incr_run) answers to_loc for every list of queried offsets in any order (C05_resume_point_form_is_to_loc, via CostP.incr_run_correct); the parser-side lookup returns the Start of the converted token under the cursor and the sub-spans given to split compound keywords are ordered and lie inside the source token. Tie: on every run the implementation\'s toSQLPosition/getLocation results for EVERY offset 0..len+2 of each generated input and its line table are compared with the model inside Coq, and the same instance is asked again backwards, in stride and zig-zag order and after tokenizing other inputs (answers must not depend on query order or instance history); an oracle written only from the property text re-derives every token/comment offset from the token values and the raw text and checks 1-based, ordering, containment, own-first-character, exact columns on ASCII tab-free lines, tokenizer error anchors, and (via the parser cursor) that every syntax error of ParseFromModelTokensWithPositions on single-token corruptions of valid statements is located at the offending token; a source scan checks that no parser error site is built with a literal zero Location.',
     note=common.BASE_NOTE + "C05: column convention of the code (tab = 4 columns, one column per byte) is part of the model; exact columns are asserted by the oracle only on ASCII tab-free lines as the property says. The byte spans of tokens (start < end <= next start) are a hypothesis of spans_ordered_loc (proved on the lexer model by C04, checked here on every generated input by the oracle). 'Offending token' = token under the parser cursor when the error is returned (verif hook VerifState).",
     design='6/C05')
 
